@@ -227,7 +227,12 @@ def gen_case(rng, quick=True):
             "eattrs": eattrs, "cfg": cfg, "dim": dim, "routes": routes, "rewraps": rewraps, "malformed": malformed or not wf,
             "script": []}
     quiet = all(e[0] in ("clear_fc", "clear_cc", "clear_cf") for es in edits for e in es)
-    case["script"] = gen_script(rng, case, connectivity=bool(wf and cfg == [True, True] and quiet and width != 1))
+    if width != 1:   # 1-D points: construction only (writers and geometry expect at least planar points)
+        case["script"] = gen_script(rng, case, connectivity=bool(wf and cfg == [True, True] and quiet and dim is None
+                                                                 and (mode in ("none", "some", "all") or kind == "line")))
+    if any(a["name"] == "hard_edges" for a in eattrs):
+        # a caller attribute that takes the exporters' reserved name: saving it is the exporters' (C04's) business
+        case["script"] = [q for q in case["script"] if q[0] != "save"]
     return case
 
 
@@ -320,12 +325,10 @@ def gen_edits(rng, rewraps, nv, faces, cells):
         elif kind == "faces-noclear":
             # faces appended (or the last one removed) WITHOUT clearing face_corners: prepare() must notice by the count
             for _ in range(rng.randint(1, 2)):
-                t = rng.choice(["add", "add", "vertex", "pop"])
-                if t == "vertex":
+                t = rng.choice(["add", "add", "vertex"])   # (removing and adding could leave the corner COUNT unchanged:
+                if t == "vertex":                           #  stale corners with the right count cannot be noticed)
                     es.append(["add_vertex", [rng.randint(0, 12), rng.randint(0, 12), 0]])
                     nv += 1
-                elif t == "pop" and not has_cells:
-                    es.append(["pop_face"])
                 else:
                     ar = rng.choice([3, 3, 4])
                     es.append(["add_face", rng.sample(range(nv), ar) if nv >= ar else [rng.randrange(nv) for _ in range(ar)]])
